@@ -120,6 +120,7 @@ type pathCtx struct {
 	feasMs     int
 	sqrtCache  map[string]string
 	intOrig    map[string]intOrigin
+	numTokens  []numToken
 }
 
 // control-flow panics used by the engine
